@@ -50,7 +50,21 @@ Definition ext_of (sha : table) : fenv_t :=
       Some (fun args => match args with [VBytes b] => Val (VBytes (Common.lookup sha (Common.lookup sha b))) | _ => Exc TypeError end)
     else None.
 
-Inductive case := Sem (sha : list (string * string)) (f : string) (args : list val) (expected : R val).
+(* + the logged table of BIP85DeterministicEntropy.entropy (path string -> 64 bytes, or None when it raised) *)
+Fixpoint ent_lookup (t : list (list Z * option string)) (p : list Z) : R val :=
+  match t with
+  | [] => Exc Unmodelled                       (* a path the implementation never asked for *)
+  | (k, v) :: r => if beq_bytes k p then match v with Some h => Val (VBytes (Common.unhex h)) | None => Exc ValueError end else ent_lookup r p
+  end.
+Definition ext_of2 (sha : table) (ent : list (list Z * option string)) : fenv_t :=
+  fun name =>
+    if String.eqb name "bip85.BIP85DeterministicEntropy.entropy" then
+      Some (fun args => match args with [_; VStr p] => ent_lookup ent p | _ => Exc TypeError end)
+    else ext_of sha name.
+
+Inductive case :=
+| Sem (sha : list (string * string)) (f : string) (args : list val) (expected : R val)
+| SemE (sha : list (string * string)) (ent : list (list Z * option string)) (f : string) (args : list val) (expected : R val).
 
 Definition fuel_default : nat := 5000.
 
@@ -60,6 +74,14 @@ Definition check_case (c : case) : Z :=
       match build genv fuel_default asts (ext_of (hextable sha)) f with   (* = fenv_all, by PyAst.build_chain *)
       | Some sem => match sem args with
                     | Exc Unmodelled => 4          (* the semantics refuses to describe this call: outside the fragment, tallied *)
+                    | r => if R_same r expected then 0 else 1
+                    end
+      | None => 1
+      end
+  | SemE sha ent f args expected =>
+      match build genv fuel_default asts (ext_of2 (hextable sha) ent) f with
+      | Some sem => match sem args with
+                    | Exc Unmodelled => 4
                     | r => if R_same r expected then 0 else 1
                     end
       | None => 1
